@@ -23,6 +23,7 @@
 //	(e)    with default options, NoCopy and Pool from a WRITE-PROTECTED memory mapping
 //	       (mprotect PROT_READ; debug.SetPanicOnFault turns a store into a recoverable panic
 //	       carrying the fault address): detects writes that store the same values
+//	(f)    finally takes the signature of the packet decoded FIRST once more
 //
 // and compares deep canonical signatures (c02gen.Full: all layers, all exported fields by
 // reflection, contents/payload bytes, special layers, flows, metadata, String/LayerString/Dump,
@@ -32,12 +33,15 @@
 //
 // Monitors (property C02):
 //
-//	det:nondeterministic:<First>       (a)/(b)/(c) signature differs from S
-//	det:cap-dependent:<First>          (d)/(e) signature differs from S (foreign bytes beyond len(data)
+//	det:nondeterministic:<Layer>       (a)/(b)/(c) signature differs from S  (<Layer> = type of the first
+//	                                   layer that differs, see culprit())
+//	det:cap-dependent:<Layer>          (d)/(e) signature differs from S (foreign bytes beyond len(data)
 //	                                   or the place where the bytes live influenced the result)
 //	det:input-written:<accessor>       the caller's buffer or a guard zone changed, or a store into
 //	                                   the protected mapping faulted; accessor ∈ NewPacket, String,
 //	                                   VerifyChecksum:<LayerType>, VerifyChecksums, …
+//	det:packet-changed-later:<Layer>   (f) the packet decoded first answers differently after all the
+//	                                   other decodes of the op (decoding is not side-effect free)
 //	det:hang                           a decode/accessor did not return within 30 s
 package main
 
@@ -181,6 +185,21 @@ func afterCall(where string) {
 // observe decodes buf and runs every accessor; returns the signature (nil if NewPacket panicked
 // past recovery).
 func observe(buf []byte, j job, opts gopacket.DecodeOptions, w *watch) (sig c02gen.Sig) {
+	sig, _ = observeKeep(buf, j, opts, w)
+	return sig
+}
+
+// signatureOf takes all accessor answers of an already decoded packet.
+func signatureOf(p gopacket.Packet) (sig c02gen.Sig) {
+	sig = c02gen.Structure(p)
+	sig = append(sig, c02gen.Rendering(p)...)
+	c02gen.AttachNetworkLayers(p)
+	sig = append(sig, c02gen.Checksums(p)...)
+	sig = append(sig, "string-after-verify="+c02gen.Call("String", p.String))
+	return sig
+}
+
+func observeKeep(buf []byte, j job, opts gopacket.DecodeOptions, w *watch) (sig c02gen.Sig, kept gopacket.Packet) {
 	cur = w
 	defer func() { cur = nil }()
 	opts.DecodeStreamsAsDatagrams = j.dsd
@@ -201,7 +220,7 @@ func observe(buf []byte, j job, opts gopacket.DecodeOptions, w *watch) (sig c02g
 		o.SkipDecodeRecovery = true
 		if try(o) {
 			if len(w.sigs) > 0 {
-				return nil // it was a fault on the input: reported
+				return nil, nil // it was a fault on the input: reported
 			}
 			try(opts) // some other decoder panic (C01/C19 matter): decode with recovery as usual
 		}
@@ -212,7 +231,7 @@ func observe(buf []byte, j job, opts gopacket.DecodeOptions, w *watch) (sig c02g
 		afterCall("NewPacket")
 	}
 	if p == nil {
-		return nil
+		return nil, nil
 	}
 	sig = c02gen.Structure(p)
 	sig = append(sig, c02gen.Rendering(p)...)
@@ -221,11 +240,12 @@ func observe(buf []byte, j job, opts gopacket.DecodeOptions, w *watch) (sig c02g
 		afterCall("SetNetworkLayerForChecksum")
 	}
 	sig = append(sig, c02gen.Checksums(p)...)
-	sig = append(sig, c02gen.Rendering(p)...) // rendering again AFTER verification: must not have changed
+	sig = append(sig, "string-after-verify="+c02gen.Call("String", p.String)) // rendering AFTER verification: must not have changed
 	if pp, ok := p.(gopacket.PooledPacket); ok {
 		pp.Dispose()
+		return sig, nil
 	}
-	return sig
+	return sig, p
 }
 
 func fill(b []byte, kind int, seed uint64) {
@@ -244,6 +264,53 @@ func fill(b []byte, kind int, seed uint64) {
 	}
 }
 
+// layerTypes extracts the layer type names from a signature ("L<i> type=<name> contents=…").
+func layerTypes(s c02gen.Sig) []string {
+	var out []string
+	for _, seg := range s {
+		var i int
+		var name string
+		if k, _ := fmt.Sscanf(seg, "L%d type=%s", &i, &name); k == 2 && i == len(out) {
+			out = append(out, name)
+		}
+	}
+	return out
+}
+
+// culprit names the layer whose decoding differs between two signatures of the same bytes: the
+// type of the first layer that differs (in the variant unless that is the DecodeFailure), or of
+// the last common layer; falls back to the first-layer name.  Only used to make signatures specific.
+func culprit(base, variant c02gen.Sig, first string) string {
+	a, b := layerTypes(base), layerTypes(variant)
+	// first differing layer segment
+	idx := -1
+	for i := 0; i < len(base) && i < len(variant); i++ {
+		if base[i] != variant[i] {
+			var li int
+			if k, _ := fmt.Sscanf(base[i], "L%d ", &li); k == 1 {
+				idx = li
+			}
+			break
+		}
+	}
+	if idx < 0 { // number of layers or a packet-level segment differs: first index where the types differ
+		for idx = 0; idx < len(a) && idx < len(b) && a[idx] == b[idx]; idx++ {
+		}
+	}
+	pick := func(ts []string, i int) string {
+		if i >= 0 && i < len(ts) && ts[i] != "DecodeFailure" {
+			return ts[i]
+		}
+		return ""
+	}
+	for _, c := range []string{pick(b, idx), pick(a, idx), pick(b, idx-1), pick(a, idx-1)} {
+		if c != "" {
+			return c
+		}
+	}
+	return first
+}
+
 func execOne(first, flags string, data []byte, dec gopacket.Decoder) string {
 	debug.SetPanicOnFault(true)
 	initFixed()
@@ -253,7 +320,7 @@ func execOne(first, flags string, data []byte, dec gopacket.Decoder) string {
 	lib.Stat("first:" + first)
 
 	// (base)
-	base := observe(exact(data), j, gopacket.Default, nil)
+	base, basePkt := observeKeep(exact(data), j, gopacket.Default, nil)
 	if base == nil {
 		lib.Stat("base-decode-panicked")
 		return "ok 0 0"
@@ -270,7 +337,7 @@ func execOne(first, flags string, data []byte, dec gopacket.Decoder) string {
 			return
 		}
 		if d := base.Diff(s); d != "" {
-			finding("det:"+kind+":"+first, fmt.Sprintf("decoding %d bytes as %s %s gives a different packet: %s", n, first, how, d))
+			finding("det:"+kind+":"+culprit(base, s, first), fmt.Sprintf("decoding %d bytes as %s %s gives a different packet: %s", n, first, how, d))
 		}
 	}
 	// (a)
@@ -320,11 +387,9 @@ func execOne(first, flags string, data []byte, dec gopacket.Decoder) string {
 	}
 	// (d) spare capacity with foreign bytes
 	seed := uint64(n)*131 + uint64(len(history))
-	for _, tail := range []int{0, 7, 64} {
-		for kind := 0; kind < 3; kind++ {
-			if tail == 0 && kind > 0 {
-				continue
-			}
+	for vi, tail := range []int{0, 7, 64, 64} {
+		{
+			kind := []int{0, 1, 2, 0}[vi]
 			region := make([]byte, guard+n+tail+guard)
 			fill(region, kind, seed)
 			copy(region[guard:], data)
@@ -332,7 +397,9 @@ func execOne(first, flags string, data []byte, dec gopacket.Decoder) string {
 			w := &watch{region: region, expect: append([]byte(nil), region...), sigs: map[string]bool{},
 				what: fmt.Sprintf("NoCopy, first=%s, %d spare bytes of kind %d", first, tail, kind)}
 			lib.Stat(fmt.Sprintf("variant:nocopy-tail%d", tail))
-			differ("cap-dependent", fmt.Sprintf("with NoCopy inside a buffer with %d spare bytes (fill kind %d)", tail, kind), observe(buf, j, gopacket.NoCopy, w))
+			if s := observe(buf, j, gopacket.NoCopy, w); len(w.sigs) == 0 { // (a reported write was undone under the packet's feet: not comparable)
+				differ("cap-dependent", fmt.Sprintf("with NoCopy inside a buffer with %d spare bytes (fill kind %d)", tail, kind), s)
+			}
 		}
 	}
 	if n <= 1500 {
@@ -366,13 +433,18 @@ func execOne(first, flags string, data []byte, dec gopacket.Decoder) string {
 				name := []string{"NoCopy", "default options", "Pool"}[vi]
 				w := &watch{prot: true, expect: data, sigs: map[string]bool{}, what: fmt.Sprintf("%s, first=%s, %d spare bytes, read-only mapping", name, first, spare)}
 				lib.Stat("variant:protected-" + name)
-				s := observe(buf, j, opts, w)
-				if s != nil || len(w.sigs) == 0 {
+				if s := observe(buf, j, opts, w); len(w.sigs) == 0 { // a faulting store was reported; the accessor did not complete
 					differ("cap-dependent", "from a write-protected buffer with "+name, s)
 				}
 			}
 		}
 		syscall.Mprotect(mapping, syscall.PROT_READ|syscall.PROT_WRITE)
+	}
+	// (f) side-effect freedom: everything decoded since must have left the FIRST packet alone
+	if basePkt != nil {
+		if d := base.Diff(signatureOf(basePkt)); d != "" {
+			finding("det:packet-changed-later:"+culprit(base, signatureOf(basePkt), first), fmt.Sprintf("a packet decoded from %d bytes as %s answers differently after other packets were decoded: %s", n, first, d))
+		}
 	}
 	history = append(history, j)
 	if len(history) > 12 {
@@ -408,9 +480,9 @@ func exec(a []string) string {
 }
 
 func gen(r *lib.Rand, tier string, emit func(string)) {
-	nCorpus, nBuilt, nRandom := -1, 1500, 300
+	nCorpus, nBuilt, nRandom := 220, 300, 80
 	if tier == "thorough" {
-		nBuilt, nRandom = 20000, 4000
+		nCorpus, nBuilt, nRandom = -1, 12000, 3000
 	}
 	ins := c02gen.Inputs(r, nCorpus, nBuilt, 30, nRandom)
 	for i, in := range ins {
